@@ -3628,6 +3628,8 @@ class __implementations__:
     def searchsorted(a, v: IntoArray, side='left', sorter=None):
         values = Array.cast(v)
         array = Array.cast(a)
+        if array.ndim != 1:
+            raise ValueError('the array to search must be one-dimensional')
         if side not in ('left', 'right'):
             raise ValueError(f'expected "left" or "right", got {side}')
         if sorter is not None:
